@@ -863,6 +863,9 @@ pub fn run(a: &Args) -> anyhow::Result<String> {
     // capdiv > 1: a capacity below the size of the larger items (oversize items are accepted by put and skipped by the
     // directory scan of a re-open)
     let cap = a.u64("cap", avg * a.u64("capx", 2) / a.u64("capdiv", 1).max(1));
+    // capexact: the capacity is exactly the cache-file length of the largest item of the first key (boundary of the
+    // "no single item larger than the capacity" proviso)
+    let cap = if a.has("capexact") { c.file(0, 0, nch as u32).1 } else { cap };
     let mut out = TraceOut::create(&a.str("out", "/dev/null"))?;
     out.run(&[c.setup_event(cap)])?;
     let n = a.u64("n", 20);
